@@ -464,7 +464,20 @@ def big_offsets(records, gz, tier):
             if gz and n > 16: ks.update({e_ - 8, e_ - 4})
     return sorted(ks)
 
+def run_inflate(case):
+    desc = inflate_desc(case["inflate"], case["width"])
+    with Env() as env:
+        log, records = baseline(env, desc, True)
+        big = max(range(len(records)), key=lambda i: len(records[i][2]))
+        s_, e_, t = records[big]
+        if rec_type(t) != case["inflate"] or big >= len(records) - 3 or len(t) <= 2**20 or e_ - s_ > 5 * 4096 + len(t) // 1000:
+            raise RuntimeError("harness: the descriptor no longer gives a > 1 MiB record compressed > 200:1 with records behind it")
+        ks = sorted({k for k in offsets_quick(records, [0.5]) if k >= e_ - 1} | {s_ + 1, (s_ + e_) // 2, len(log)})
+        run_offsets(env, desc, True, log, records, ks)
+
 def run_big(case):
+    if "inflate" in case:
+        return run_inflate(case)
     desc, gz = BIG[case["big"]], case["gz"]
     with Env() as env:
         env.name = case.get("name")
@@ -632,7 +645,16 @@ FIXED = [
      "vals": [_seq(["reward"])], "shape": "tuples", "tuples": [(0, 1, 0), (1, 1, 0), (0, 0, 0), (1, 2, 0), (0, 2, 0), (1, 0, 0)],
      "description": None, "seed": 1},
 ]
-def _wide(width, rows=1): return {"kind": "wide", "width": width, "rows": rows}
+def _wide(width, rows=1, const=False): return {"kind": "wide", "width": width, "rows": rows, "const": const}
+
+def inflate_desc(where, width):
+    """an experiment whose .gz log holds one very compressible record of `width` constant characters (a few KB of gzip inflating
+    to > 1 MiB) followed by further records: where = 'I' (an evaluation outcome in the middle of the log) or 'experiment' (description)"""
+    if where == "I":
+        return {"envs": [_g(1, 2, 1), _g(2, 2, 2, ctx="str")], "lrns": [{"kind": "random"}, {"kind": "ucb"}],
+                "vals": [_seq(["reward"]), _wide(width, 1, True)], "shape": "tuples",
+                "tuples": [(0, 0, 0), (0, 0, 1), (1, 0, 0), (1, 1, 0), (0, 1, 0)], "description": None, "seed": 1}
+    return dict(FIXED[5], description="d" * width)
 
 BIG = [
     # 0: I records of ~70 KB, ~150 KB (3 rows) and small ones, log ~ 290 KB; the big records are neither first nor last
@@ -650,6 +672,9 @@ def enumerate_big(tier):
         for gz, name in ((False, None), (True, None)) + (((True, "runs.gz.d/log.txt"),) if tier == "thorough" else ()):
             for part in range(parts):
                 yield {"big": i, "gz": gz, "name": name, "tier": tier, "part": part, "parts": parts}
+    for where in ("I", "experiment"):
+        for width in ((3000000,) if tier == "quick" else (1100000, 3000000, 9000000)):
+            yield {"inflate": where, "width": width, "gz": True, "name": None, "tier": tier}
 
 QUICK_FIXED = [0, 2]
 _SIZES = {}
@@ -790,6 +815,7 @@ def classes_kill(case):
     return [kind_class(case), "killed:" + ("before-first-triple" if k == 0 else "after-all" if k >= n else "between-triples")] + desc_classes(case["desc"])[:2]
 
 def classes_big(case):
+    if "inflate" in case: return ["gz", "inflating-record=%s" % case["inflate"], "inflated-MB=%.1f" % (case["width"] / 1e6)]
     return [kind_class(case), "big=%d" % case["big"]]
 
 def classes_sweep(case):
@@ -839,7 +865,7 @@ SUBCHECKS = [
         what="REAL interruption: a child process running the experiment (plain / gz / '.gz' inside the path) dies by os._exit when evaluation n+1 starts; the file it left is resumed: the n finished triples must not be evaluated again, oracle (1)-(4)"),
     Sub(name="big", run=run_big, enumerate=enumerate_big, nontrivial=lambda c: True, classes=classes_big, classify=classify,
         quick_shards=1, thorough_shards=16, quick_budget_s=45, thorough_budget_s=150,
-        what="fixed experiments with logs of 360 KB and records of 66-200 KB: cuts leaving a partial final record of 65534..65538 / 131071..131073 / 131072+777 bytes, and first/middle/last byte and end of every record lying beyond the first 64 KiB (plain); 4095..4097 / 8191..8193 / trailer bytes of big members (gz)"),
+        what="fixed experiments with logs of 360 KB and records of 66-200 KB: cuts leaving a partial final record of 65534..65538 / 131071..131073 / 131072+777 bytes, and first/middle/last byte and end of every record lying beyond the first 64 KiB (plain); 4095..4097 / 8191..8193 / trailer bytes of big members (gz); plus .gz logs holding one record of 1.1-9 million constant characters (I record in the middle / experiment description; a few KB of gzip inflating > 1 MiB per 4 KiB block): resume from the complete log and from every cut behind that record"),
     Sub(name="gzblock", run=run_gzblock, enumerate=enumerate_gzblock, nontrivial=lambda c: c["pad"] is not None and c["end"] % GZBLOCK == 0,
         classes=classes_gzblock, classify=classify, quick_shards=1, thorough_shards=4, quick_budget_s=45, thorough_budget_s=150,
         what=".gz logs padded (experiment description, searched one character at a time with the real DiskSink) until a chosen non-final member (experiment / parameter / I record) ends exactly at 4096*k, k=1,2 (controls +-1): resume from the complete log, from every record boundary and first/last/middle byte of every record behind that boundary"),
